@@ -14,27 +14,32 @@ Vec(sch, d) == [d |-> d, viol |-> Violations(sch, d), must |-> MustReport(sch, d
 Sfx(n) == ToString(n) \o ".ndjson"
 
 \* ---- sampled data for a schema: conforming names, at most one case per choice ----
-RECURSIVE RandData(_), RandEntries(_, _, _)
+\* (ic: members of a case - no present-but-empty list / leaf-list / non-presence container there)
+RECURSIVE RandData(_, _), RandEntries(_, _, _)
 RandEntries(c, body, n) ==
   IF n = 0 THEN {}
-  ELSE RandEntries(c, body, n - 1) \cup {D(KeyVal(n), << >>, RandData(body) \cup {D(c.key, <<KeyVal(n)>>, {})})}
-RandOpt(c) ==
-  LET r == RandomElement(1..4) IN
+  ELSE RandEntries(c, body, n - 1) \cup {D(KeyVal(n), << >>, RandData(body, FALSE) \cup {D(c.key, <<KeyVal(n)>>, {})})}
+RandOpt(c, ic) ==
+  LET r == RandomElement(1..4)
+      z == RandomElement(1..5) IN          \* z = 1: present but empty
   CASE c.kind = "leaf" ->
          IF r = 1 THEN {} ELSE IF IsEmptyType(c.typ) THEN {D(c.name, << >>, {})}
          ELSE {D(c.name, <<IF r = 2 THEN "2" ELSE "1">>, {})}
-    [] c.kind = "leaflist" -> IF r = 1 THEN {} ELSE {D(c.name, LLVals(r - 1), {})}
+    [] c.kind = "leaflist" -> IF r = 1 THEN {} ELSE IF z = 1 /\ ~ic THEN {D(c.name, << >>, {})} ELSE {D(c.name, LLVals(r - 1), {})}
     [] c.kind = "container" ->
-         LET k == RandData(c.kids) IN
-         IF r = 1 \/ (k = {} /\ ~c.presence) THEN {} ELSE {D(c.name, << >>, k)}
+         LET k == RandData(c.kids, FALSE) IN
+         IF r = 1 THEN {}
+         ELSE IF z = 1 /\ ~ic THEN {D(c.name, << >>, {})}
+         ELSE IF k = {} /\ ~c.presence /\ ic THEN {} ELSE {D(c.name, << >>, k)}
     [] c.kind = "list" ->
          IF r = 1 THEN {}
+         ELSE IF z = 1 /\ ~ic THEN {D(c.name, << >>, {})}
          ELSE {D(c.name, << >>, RandEntries(c, SelectSeq(c.kids, LAMBDA x : x.name # c.key), r - 1))}
     [] c.kind = "choice" ->
          LET i == RandomElement(1..Len(c.kids)) IN
-         IF r = 1 THEN {} ELSE RandData(CaseKids(c.kids[i]))
-RandData(sk) == IF sk = << >> THEN {} ELSE RandOpt(sk[1]) \cup RandData(Tail(sk))
-RandCase(i) == LET sch == RandSchema(RandDepth, IF i % 2 = 0 THEN "sparse" ELSE "data") IN [id |-> 1000 + i, kids |-> sch, d |-> RandData(sch)]
+         IF r = 1 THEN {} ELSE RandData(CaseKids(c.kids[i]), TRUE)
+RandData(sk, ic) == IF sk = << >> THEN {} ELSE RandOpt(sk[1], ic) \cup RandData(Tail(sk), ic)
+RandCase(i) == LET sch == RandSchema(RandDepth, IF i % 2 = 0 THEN "sparse" ELSE "data") IN [id |-> 1000 + i, kids |-> sch, d |-> RandData(sch, FALSE)]
 
 RECURSIVE RandCases2(_)
 RandCases2(n) == IF n = 0 THEN << >> ELSE RandCases2(n - 1) \o <<RandCase(n)>>
